@@ -4,13 +4,24 @@ from collections import Counter
 import common, drv
 from props import c02
 
-THEOREMS = ["equiv_norm3_sound", "symExec_conc"]
+THEOREMS = ["equiv_norm3_sound", "symExec_conc", "Spec.realizes_exec", "Spec.realized_sequence_exec", "Spec.realized_sequence_obsEq",
+            "Spec.spec_denotes_block_under_every_schedule"]
+
+
+def norm_tokens(s):
+    """token string -> canonical list (hex case / leading zeros of constants are not significant)"""
+    out = []
+    for t in s.split():
+        if t.startswith("PUSH:"):
+            t = "PUSH:%x" % int(t[5:], 16)
+        out.append(t)
+    return out
 
 
 def run(tier):
     sd = common.seed()
     rng = random.Random(sd * 1237 + 17)
-    po = common.proof_obligations("GasolVerif.Proofs.NormSound", THEOREMS)
+    po = common.proof_obligations("GasolVerif.Proofs.NormSound,GasolVerif.Proofs.RealizeSound", THEOREMS)
     violations = [{"kind": "broken-proof-obligation", "what": b, "no_failing_input": True, "input": b} for b in po["broken"]]
     import gen
     extra = gen.stack_corpus() + gen.deep_operand_corpus() + gen.deep_same_operand_corpus() + gen.cross_region_corpus() + gen.deep_stack_blocks(sd * 19 + 1, 120 if tier == 'quick' else 1500) + gen.blocks(sd * 17 + 3, 150 if tier == 'quick' else 2000, profiles=('stack',))
@@ -57,17 +68,75 @@ def run(tier):
         else:
             raise common.MachineryError("driver: %s" % o)
     c["sequences-with-stack-deeper-than-16"] = deep
+    # the semantic meaning of `realizes` (theorems realizes_exec / realized_sequence_exec / realized_sequence_obsEq): every premise
+    # is evaluated on each (block, specification, greedy sequence); the instructions the model lets the identifiers stand for must
+    # be the ones the tool itself renders them to (asm_from_ids)
+    reqs2, meta2 = [], []
+    for o, (t, e, g) in zip(outs, meta):
+        if not o.startswith("ok"):
+            continue
+        edges = [tuple(d) for d in e["deps"]] + c02.data_edges(e)
+        Ls = c02.linear_extensions(e["effects"], edges, rng, 0)
+        if not Ls:
+            continue
+        reqs2.append("REALEXEC\t%s\t%s\t%s\t%s" % (e["tokens"], "\t".join(e["spec"]), ",".join(g["ids"]), ",".join(Ls[0])))
+        meta2.append((t, e, g))
+    outs2 = drv.batch(reqs2)
+    exreqs, exmeta = [], []
+    for o, (t, e, g) in zip(outs2, meta2):
+        status, _, asm = o.partition("\t")
+        key = status.split(":")[0]
+        c["semantic:" + (status if key in ("partial", "exec-only") else key)] += 1
+        if key in ("error",):
+            raise common.MachineryError("driver: %s" % o)
+        if key == "no":
+            if status.startswith("no:asmOf"):
+                violations.append({"kind": "identifier-without-instruction", "input": " ".join(e["plain"]), "options": t["opts"], "no_failing_input": True,
+                                   "what": "the model (Spec.asmOf) has no instruction for an identifier of %s on %s" % (g["ids"], " ".join(e["plain"]))})
+            continue          # `realizes` on the pruned specification fails: a dead load is executed; not this clause's business
+        if "asm_tokens" not in g:
+            c["semantic:rendering-" + ("unsupported" if "asm_unsupported" in g else "raises")] += 1
+            if "asm_exception" in g:
+                violations.append({"kind": "rendering-raises", "input": " ".join(e["plain"]), "options": t["opts"],
+                                   "what": "asm_from_ids raised %s on the greedy sequence %s of %s" % (g["asm_exception"], g["ids"], " ".join(e["plain"]))})
+            continue
+        if norm_tokens(asm) == norm_tokens(g["asm_tokens"]):
+            c["semantic:rendering-equal"] += 1
+        else:
+            # correspondence model/code broken: search for a state on which the rendered sequence and the block differ
+            for sd2, stk in gen.states(rng, 20, 24):
+                exreqs.append("EXEC2\t%d\t%s\t%s\t%s" % (sd2, stk, e["tokens"], g["asm_tokens"]))
+                exmeta.append((t, e, g, asm))
+    render_samples = []
+    if exreqs:
+        # not a clause of C04 (the property speaks of the identifier sequence; what is emitted after the tool's own re-check is
+        # C01's business): recorded as coverage of the pipeline theorem, with the first distinguishing state as a diagnostic
+        exouts = drv.batch(exreqs)
+        seen = {}
+        for o, (t, e, g, asm) in zip(exouts, exmeta):
+            k = (t["text"], e["name"])
+            if o.startswith("diff") and not seen.get(k):
+                seen[k] = True
+                c["semantic:rendering-differs-and-distinguishable"] += 1
+                if len(render_samples) < 3:
+                    render_samples.append({"block": " ".join(e["plain"]), "ids": g["ids"], "tool": g["asm_tokens"], "model": asm, "state": o[:160]})
+            else:
+                seen.setdefault(k, False)
+        c["semantic:rendering-differs"] = len(seen)
     cov = {"programs": c["greedy-success"], "disagreements_checked": len([o for o in outs if o.startswith("no:")]),
            "evaluations": c["specs"], "distinct_nontrivial": c["greedy-success"],
            "obligations": po["obligations"], "discharged": po["discharged"],
            "rule": "specifications from the real front end (generated blocks incl. memory corpus, all split modes, rules on/off); every "
                    "sequence greedy_from_json returns with error == 0 is run through Spec.realizes (the executable statement of C04: no "
                    "underflow, DUP/SWAP 1..16, stores once, dependences, named operands, final stack)",
-           "samples": samples or [{"n": 0}], "counters": dict(c),
-           "checker_cmd": "gvdrv REALIZES (lean/GasolVerif/Models/Spec.lean realizes)",
+           "samples": samples or [{"n": 0}], "counters": dict(c), "rendering_differences": render_samples,
+           "checker_cmd": "gvdrv REALIZES (lean/GasolVerif/Models/Spec.lean realizes); gvdrv REALEXEC (Models/Realize.lean: premises of realizes_exec / realized_sequence_obsEq)",
            "trusted_base": ["Spec.realizes is the formal statement of the property, executed by the compiled driver", "spec serialisation in harness/tasks.py"]}
     return {"level": "translation_validation", "coverage": cov, "violations": violations,
             "assumptions": ["the greedy algorithm itself is not modelled: every output on every explored specification is checked",
+                            "semantic:* counters: on how many greedy sequences every premise of realized_sequence_obsEq holds (`obs`), and on how many the "
+                            "tool's rendering asm_from_ids is the instruction list Spec.asmOf the theorem speaks of; a differing rendering is left to C01 "
+                            "(keep-or-revert decides what is emitted)",
                             "hand-built specifications outside the front end's image are not generated yet"]}
 
 
